@@ -87,6 +87,9 @@ func c06Gen(r *Rng, tier string, i int) Sx {
 			qs = append(qs, L(A(r.Pick([]string{"m", "s"})), S(m), S(a)), L(A(r.Pick([]string{"m", "s"})), S(m), S(b)))
 		}
 	}
+	if intercept == "" {
+		opts, qs = rtGroup(r, opts, qs)
+	}
 	// options are applied in the order listed: the order must not matter
 	for k := len(opts) - 1; k > 0; k-- {
 		j := r.Intn(k + 1)
@@ -166,6 +169,7 @@ func c07Gen(r *Rng, tier string, i int) Sx {
 		}
 		qs = append(qs, L(A(kind), S(u.m), S(u.p)))
 	}
+	opts, qs = rtGroup(r, opts, qs)
 	return L(A("rt"), LS(opts), LS(t.defs), LS(qs))
 }
 
@@ -305,6 +309,9 @@ func c13Gen(r *Rng, tier string, i int) Sx {
 	}
 	if r.Chance(1, 5) {
 		opts = append(opts, L(A("direct")))
+	}
+	if r.Chance(1, 6) { // the definitions are registered inside a group: prefix and path together form the pattern
+		opts = append(opts, L(A("group"), S(r.Pick([]string{"/g", "/a[", "/u/{id:(\\d+)}", "/g/{gid}", "/x]", "/{a", "/p(q)", " ", "/G/"}))))
 	}
 	var qs []Sx
 	for k := 0; k < 12; k++ {
